@@ -7,7 +7,7 @@
    channels and mailboxes, malformed ops included), and every schedule sched (any interleaving of single
    ops, with any outcome of the timer/network choices the implementation makes).  `run c sched` is the
    state reached; `a_log` is what the Recorder of an archetype received. *)
-From PGV Require Import C18.Model C18.ProofsClock C18.ProofsFrame C18.ProofsLog C18.ProofsReplay C18.ProofsCausal.
+From PGV Require Import C18.Model C18.ProofsClock C18.ProofsFrame C18.ProofsLog C18.ProofsReplay C18.ProofsCausal C18.ProofsDom.
 From Coq Require Import Lia.
 
 (* logged exactly once, in program order: the events carry the attempt numbers 1, 2, 3, ... without gap or
@@ -78,6 +78,13 @@ Theorem own_component : forall c sched a e,
 Proof. exact own_component_lemma. Qed.
 Print Assumptions own_component.
 
+(* ... so along the log it is 1, 2, 3, ...: it grows by exactly one per logged attempt, committed or aborted *)
+Theorem own_component_grows_by_one : forall c sched a k e,
+  a < List.length (cf_archs c) ->
+  nth_error (a_log (g_arch (run c sched) a)) k = Some e -> vget a (e_clock e) = S k.
+Proof. exact own_component_seq_lemma. Qed.
+Print Assumptions own_component_grows_by_one.
+
 (* ------------------------------------------------------------------------------------------------
    reader dominates writer.  e_srcs er lists, for every read of the attempt, the kind of resource and the
    (ghost) attempt (w, i) that wrote the value returned.  Full statement: *)
@@ -85,6 +92,31 @@ Definition reader_dominates_writer_stmt : Prop := forall c sched r er k w i ew,
   In er (a_log (g_arch (run c sched) r)) -> In (k, (w, i)) (e_srcs er) ->
   In ew (a_log (g_arch (run c sched) w)) -> e_no ew = i ->
   vle (e_clock ew) (e_clock er).
+
+(* It holds for every value read from archetype-local state, from a variable shared between archetypes
+   (LocalShared; after the repair of LocalArchetypeResource.Commit, commit c36dcc47) and from a channel:
+   the reader's event clock dominates the event clock of the attempt that wrote or sent the value -
+   whatever else either attempt did, for aborted readers too, in every interleaving. *)
+Theorem reader_dominates_writer : forall c sched r er k w i ew,
+  In er (a_log (g_arch (run c sched) r)) -> In (k, (w, i)) (e_srcs er) -> k <> KBox ->
+  In ew (a_log (g_arch (run c sched) w)) -> e_no ew = i ->
+  vle (e_clock ew) (e_clock er).
+Proof. exact reader_dominates_writer_lemma. Qed.
+Print Assumptions reader_dominates_writer.
+
+(* values relayed over several hops: domination composes along every chain of such reads *)
+Theorem reader_dominates_writer_relay : forall c sched r er k w i ew k' z j ez,
+  In er (a_log (g_arch (run c sched) r)) -> In (k, (w, i)) (e_srcs er) -> k <> KBox ->
+  In ew (a_log (g_arch (run c sched) w)) -> e_no ew = i ->
+  In (k', (z, j)) (e_srcs ew) -> k' <> KBox ->
+  In ez (a_log (g_arch (run c sched) z)) -> e_no ez = j ->
+  vle (e_clock ez) (e_clock er).
+Proof.
+  intros c sched r er k w i ew k' z j ez H1 H2 H3 H4 H5 H6 H7 H8 H9.
+  eapply vle_trans; [eapply (reader_dominates_writer_lemma c sched w ew k' z j ez); eassumption|
+                     eapply (reader_dominates_writer_lemma c sched r er k w i ew); eassumption].
+Qed.
+Print Assumptions reader_dominates_writer_relay.
 
 (* It is false for TCP mailboxes (the value is encoded with the sender's clock as of the Write, the sender's
    event carries its clock as of commit).  Witness: Z (0) sends 7 to mailbox 1 (owned by W); W (1) sends 5 to
